@@ -66,6 +66,7 @@ def run(chk):
     chk.nontrivial_count += sum(1 for o in got if o["g"] == "Auto")
     chk.traces += len(got)
     chk.sample({"configuration": got[777]})
+    std_handles_part(chk, vh)
     # the clap flag maps one-to-one onto the global choice (needs the vh-conv crate, which links clap)
     try:
         from props import c16
@@ -75,7 +76,66 @@ def run(chk):
     chk.exhaustive = True
 
 
+def std_handles_part(chk, vh):
+    """the decision for the REAL Stdout / StdoutLock / Stderr / StderrLock (and anstream::stdout()/stderr()) of a child whose
+    fd 1 and fd 2 are bound to a pty or a pipe in all four combinations, judged by Trace_ColorChoice"""
+    import pty
+    wd = vlib.workdir("c09-std")
+    base = {k: v for k, v in os.environ.items() if k not in ("NO_COLOR", "CLICOLOR", "CLICOLOR_FORCE", "CI", "COLORTERM", "TERM")}
+    envs = [{"TERM": "xterm-256color"}, {"TERM": "dumb"}, {"TERM": "dumb", "CI": "true"}, {"CLICOLOR": "1"}, {"TERM": "xterm-256color", "NO_COLOR": "1"}]
+    evs = []
+    for ei, extra in enumerate(envs):
+        env = dict(base); env.update(extra)
+        full = {v: extra.get(v, "unset") for v in ("NO_COLOR", "CLICOLOR_FORCE", "CLICOLOR", "TERM", "CI")}
+        for out_term in (False, True):
+            for err_term in (False, True):
+                fds = []
+                def mk(term):
+                    if term:
+                        m, s_ = pty.openpty(); fds.extend([m, s_]); return s_
+                    r_, w_ = os.pipe(); fds.extend([r_, w_]); return w_
+                so, se = mk(out_term), mk(err_term)
+                outp = os.path.join(wd, "h-%d-%d%d.ndjson" % (ei, out_term, err_term))
+                try:
+                    r = subprocess.run([vh, "std-term", outp], stdin=subprocess.DEVNULL, stdout=so, stderr=se, env=env, timeout=60)
+                finally:
+                    for fd in fds:
+                        os.close(fd)
+                if r.returncode != 0:
+                    raise vlib.ToolError("vh std-term failed (rc %d)" % r.returncode)
+                for l in open(outp):
+                    o = json.loads(l)
+                    term = out_term if "stdout" in o["handle"] else err_term
+                    evs.append({"k": "decide", "handle": o["handle"], "via": "current_choice" if o["handle"].startswith("anstream::") else "choice", "env": full, "term": term, "decision": o["decision"],
+                                "stdout_is_terminal": out_term, "stderr_is_terminal": err_term})
+    p = os.path.join(wd, "std.ndjson")
+    rest = evs
+    bad = 0
+    while rest and bad < 10:
+        vlib.write_lines(p, rest)
+        ok, rej, res = vlib.tlc_trace(p, "Trace_ColorChoice", "c09-std")
+        chk.add_tlc(res)
+        if ok:
+            break
+        e = rej["event"]
+        bad += 1
+        chk.violation("decision for %s with stdout %s / stderr %s, env %s: observed %s, ColorChoice!Query says otherwise"
+                      % (e["handle"], "a terminal" if e["stdout_is_terminal"] else "a pipe", "a terminal" if e["stderr_is_terminal"] else "a pipe",
+                         json.dumps(e["env"]), e["decision"]), {"kind": "std-handle", "event": e})
+        rest = rest[rej["reject_at"]:]
+    chk.evaluations += len(evs)
+    chk.part("A_real_standard_handles", observations=len(evs), environments=len(envs), fd_combinations=4)
+
+
 def replay(obj):
+    if obj.get("kind") in ("std-handle", "clap-flag"):
+        wd = vlib.workdir("replay")
+        p = os.path.join(wd, "e.ndjson")
+        vlib.write_lines(p, [obj["event"]])
+        ok, rej, _ = vlib.tlc_trace(p, "Trace_ColorChoice", "replay-c09")
+        print(json.dumps(obj["event"]))
+        print("recorded observation:", "accepted" if ok else "rejected by Trace_ColorChoice (re-run the check to observe the code again)")
+        return 0 if ok else 1
     vh = vlib.build_harness("vh")
     m = obj["case"]
     print(json.dumps(m))
